@@ -267,18 +267,30 @@ def main(prop, mod, tier='quick', only=None, extra_evidence=None, pre_results=No
     ensure_env()
     sys.path[:0] = [ROOT]
     hmod = importlib.import_module('harness.' + mod)
-    layout_missing = hmod.probe() if hasattr(hmod, 'probe') else []
+    layout_missing = list(hmod.probe()) if hasattr(hmod, 'probe') else []
+    # private-attribute groups, probed on the tree under analysis (same environment as the analysis itself)
+    try:
+        lp = subprocess.run([PY, '-m', 'vlib.layout'], cwd=ROOT, env=ENV, capture_output=True, text=True, timeout=120)
+        groups_missing = []
+        for line in lp.stdout.splitlines():
+            if line.startswith('LAYOUT-MISSING '):
+                groups_missing = json.loads(line[len('LAYOUT-MISSING '):])
+    except Exception:  # noqa
+        groups_missing = []
     jobs, known = expand(prop, mod, hmod, tier, only)
     skipped = []
-    if layout_missing:
+    default_groups = list(getattr(hmod, 'LAYOUT', []))
+    if layout_missing or groups_missing:
         keep = []
         for j in jobs:
-            need = set(j['ob'].get('layout', []))
-            if need & set(layout_missing) or (j['ob'].get('layout') is None and False):
+            need = j['ob'].get('groups')
+            need = set(default_groups if need is None else need)
+            if (need & set(groups_missing)) or (layout_missing and j['ob'].get('groups') != []):
                 skipped.append(j)
             else:
                 keep.append(j)
         jobs = keep
+        layout_missing = layout_missing + ['group:' + g for g in groups_missing]
     workers = int(os.environ.get('VERIF_JOBS', '16'))
     ljobs = [] if only else lemma_jobs(prop, hmod, tier)
     with cf.ThreadPoolExecutor(workers) as ex:
